@@ -11,9 +11,17 @@ predicates Qe / Ql for what the callbacks return.  Obligations generated at the 
     leave    for an arbitrary state and an entered, not yet left x all of whose children are left, with args[k] satisfying
              Ql(k-th child, args[k]):  after g(x, args):  J(ENT, LEFT + x) and Ql(x, returned value).
 Conclusion assumed afterwards:  J(Sub(r), Sub(r)) and Ql(r, result)   (result is None without a leave callback).
-The rule is a consequence of the contract of `_traverse_dfs` proved in contracts/C04.py (every subtree node entered once after its
-parent with the parent's value, left once after its children with exactly their values) by induction over the event order; that
-derivation is an argument in DESIGN.md, not a mechanised proof, and is therefore listed under assumptions ("derived rule").
+Without an enter (leave) callback the traversal still enters (leaves) every node: if J reads ENT (LEFT) the rule emits the silent step
+    enter/invariant-preserved-where-no-enter-callback-is-given   J(ENT, LEFT) => J(ENT + x, LEFT) in an unchanged state (likewise leave).
+Status: the SCHEMA (init / enter / leave / silent steps => conclusion, for every run made of enabled events) is proved in Lean 4,
+lean/TraverseRule.lean (`inv_of_reach`, `traverse_rule_sound`, `traverse_rule_sound_no_enter`, `traverse_rule_sound_no_leave`).  That every
+callback call of the real `_traverse_dfs` is an enabled event, and that a run ends with exactly the subtree entered and left, are
+obligations of contracts/C04.py (`C04/_traverse_dfs/enter/...`, `.../leave/...`, `.../post/...`).  What remains by inspection: that the
+first-order obligations emitted below are the instances of the Lean premises (same text, clause by clause - see the header of the
+Lean file).  The frame of the client's callbacks is an obligation of each step (`<step>/callback-changes-only-the-state-the-rule-declares`:
+every container reachable from the carrier's frame that `modifies` does not cover, and every other local, is unchanged by the real callback
+and its ghost code; extension values that are not stock containers are not followed).  Evidence lists the rule as "lemma schema proved in
+Lean 4, instantiated by inspection".
 """
 from __future__ import annotations
 
@@ -135,6 +143,71 @@ def _owned(v, mark, seen=None):
     return True
 
 
+# ---- the frame of the client's callbacks: a step may change only the state the rule declares (`modifies`), which is what the rule havocs
+def _containers(v, acc, seen):
+    """mutable containers reachable from a value (through list / dict items, object fields, tuples); extension values that are not
+    one of the stock container classes are not followed (their contents are then outside this check)"""
+    from .values import NArr, Obj, PDict
+
+    if id(v) in seen:
+        return acc
+    seen.add(id(v))
+    if isinstance(v, (tuple, list)):
+        for x in v:
+            _containers(x, acc, seen)
+    elif isinstance(v, NArr):
+        acc.append(v.root())
+    elif isinstance(v, SArr):
+        acc.append(v)
+    elif isinstance(v, PList):
+        acc.append(v)
+        for x in (v.items or ()):
+            _containers(x, acc, seen)
+    elif isinstance(v, PDict):
+        acc.append(v)
+        for x in (v.items.values() if v.items is not None else ()):
+            _containers(x, acc, seen)
+    elif isinstance(v, Obj):
+        acc.append(v)
+        for x in v.fields.values():
+            _containers(x, acc, seen)
+    return acc
+
+
+def _content(v):
+    """what a container holds right now, as a flat tuple of z3 terms / scalars / object identities"""
+    from .values import NArr, Obj, PDict
+
+    if isinstance(v, NArr):
+        return ("narr", tuple(v.items))
+    if isinstance(v, SArr):
+        return ("sarr", v.arr, v.n)
+    if isinstance(v, PList):
+        return ("list", tuple(v.items)) if v.items is not None else ("slist", tuple(v.cols), v.n)
+    if isinstance(v, PDict):
+        return ("dict", tuple(v.items.items())) if v.items is not None else ("sdict", v.dom, v.val, v.lens)
+    if isinstance(v, Obj):
+        return ("obj", tuple(sorted(v.fields.items(), key=lambda kv: kv[0])))
+    return ("?",)
+
+
+def _same_content(a, b):
+    if isinstance(a, tuple) and isinstance(b, tuple):
+        return len(a) == len(b) and all(_same_content(x, y) for x, y in zip(a, b))
+    if isinstance(a, z3.ExprRef) or isinstance(b, z3.ExprRef):
+        return isinstance(a, z3.ExprRef) and isinstance(b, z3.ExprRef) and a.eq(b)
+    if isinstance(a, Sym) or isinstance(b, Sym):
+        return isinstance(a, Sym) and isinstance(b, Sym) and a.kind == b.kind and a.z.eq(b.z)
+    if a is b:
+        return True
+    if type(a) in (int, bool, float, str, type(None)) or type(a).__module__ in ("fractions", "numpy"):
+        try:
+            return type(a) is type(b) and bool(a == b)
+        except Exception:
+            return False
+    return False  # two different objects: a container slot was rebound
+
+
 def apply(eng, rule: Rule, fr, topology, enter, leave, root):
     from .spec import Frame  # noqa: F401
 
@@ -178,8 +251,9 @@ def apply(eng, rule: Rule, fr, topology, enter, leave, root):
     eng.assume(z3.ForAll([x, k, k2], z3.Implies(z3.And(0 <= k, k < k2, k2 < nkids(x)), kid(x, k) < kid(x, k2))))
     eng.assume(z3.ForAll([c], z3.Implies(z3.And(R(c), sel(P, c) >= 0), z3.And(0 <= rank(c), rank(c) < nkids(sel(P, c)), kid(sel(P, c), rank(c)) == c))))
     eng.assumptions.add("ghost definitions per traverse call: Sub (subtree of the start node), nkids / kid / rank (children in table order)")
-    eng.assumptions.add("assumed-lemma:traverse client rule: schema proved in Lean (lean/TraverseRule.lean: traverse_rule_sound) from the event-sequence "
-                        "reading of the contract of _traverse_dfs proved in contracts/C04.py; the obligations emitted here instantiate its premises by inspection")
+    eng.assumptions.add("assumed-lemma:traverse client rule: schema proved in Lean (lean/TraverseRule.lean: traverse_rule_sound, _no_enter, _no_leave) over the event model "
+                        "whose steps are the callback obligations C04/_traverse_dfs/enter|leave/... and whose end state is C04's postconditions; the obligations emitted here "
+                        "instantiate its premises by inspection; the callbacks' frame (Rule.modifies) is checked per step for stock containers and locals")
     ctx = Ctx(P, n, rz, Sub, nkids, kid, rank)
     eng.ghost["last-traverse-Sub"] = Sub  # so that the caller's postconditions can speak about the subtree of this call
     eng.ghost["last-traverse-ctx"] = ctx  # ... and about the children enumeration (nkids / kid / rank) of this call
@@ -237,9 +311,49 @@ def apply(eng, rule: Rule, fr, topology, enter, leave, root):
         for _, f in J_parts(ENT, LEFT):
             eng.assume(f)
 
+    def frame_before():
+        """snapshot of everything reachable from the carrier's frame that the rule does NOT declare as modified by the callbacks"""
+        declared, seen = set(), set()
+        for t in targets():
+            for c_ in _containers(t, [], seen):
+                declared.add(id(c_))
+        local_names = {m[1] for m in rule.modifies if isinstance(m, tuple) and m[0] == "local"}
+        vs = vars_now()
+        watched = [c_ for c_ in _containers(list(vs.values()), [], set()) if id(c_) not in declared and not getattr(c_, "frozen", False)]
+        scalars = {k: v_ for k, v_ in vs.items() if k not in local_names and (v_ is None or isinstance(v_, (Sym, int, bool, float, str)))}
+        return [(c_, _content(c_)) for c_ in watched], scalars
+
+    def frame_after(step, before):
+        """obligation <step>/callback-changes-only-the-state-the-rule-declares: written in place by the real callback (or its ghost code)
+        = content differs syntactically from the snapshot.  Conservative: writing an equal value back is reported too."""
+        watched, scalars = before
+        changed = [repr(c_)[:60] for c_, old in watched if not _same_content(old, _content(c_))]
+        vs = vars_now()
+        changed += [f"local {k}" for k, v_ in scalars.items() if k in vs and not _same_content(v_, vs[k])]
+        eng.prove(f"{lab}/{step}/callback-changes-only-the-state-the-rule-declares", not changed, "frame",
+                  ("undeclared state written: " + ", ".join(changed)) if changed else "")
+
     emptyset = z3.K(I, z3.BoolVal(False))
     # ---- init
     prove_J("init/invariant-holds-before-the-first-event", emptyset, emptyset)
+
+    def j_reads(which):
+        """does J read ENT (which = 0) / LEFT (which = 1)?  J is evaluated once with two fresh set constants; a constant that does not
+        occur in the resulting formula is not read (a step without a callback then hands its hypothesis back: nothing to prove)"""
+        sets = [z3.Const(fresh_name(nm), z3.ArraySort(I, B)) for nm in ("ENTp", "LEFTp")]
+        todo, seen = [f for _, f in J_parts(*sets)], set()
+        while todo:
+            t = todo.pop()
+            if t.get_id() in seen:
+                continue
+            seen.add(t.get_id())
+            if z3.eq(t, sets[which]):
+                return True
+            if z3.is_quantifier(t):
+                todo.append(t.body())
+            else:
+                todo.extend(t.children())
+        return False
 
     def phase(body):
         """run `body` on an arbitrary reachable state; its assumptions are dropped afterwards"""
@@ -316,17 +430,36 @@ def apply(eng, rule: Rule, fr, topology, enter, leave, root):
                 for part in ([f for _, f in qe] if isinstance(qe, (list, tuple)) else [qe]):
                     eng.assume(_zb(part))
             pending = stability_before(ENT, LEFT)
+            watch = frame_before()
             ret = eng.call(enter, [xs, pre], {})
             eng.ghost["traverse-last-call"] = dict(x=xz, args=pre, ret=ret, ENT=ENT, LEFT=LEFT)
             if rule.ghost_enter is not None:
                 ctx.ret = ret  # the value the real callback returned (ghost code may record it)
                 rule.ghost_enter(eng, vars_now(), xz, ctx)
+            frame_after("enter", watch)
             ENT2 = z3.Store(ENT, xz, z3.BoolVal(True))
             stability_after("enter", pending)
             prove_J("enter/invariant-preserved", ENT2, LEFT)
             _prove_parts(eng, f"{lab}/enter/returned-value-as-specified", rule.Qe(eng, vars_now(), xz, ret, ctx))
 
         phase(enter_step)
+    else:
+        # No enter callback: the traversal still ENTERS every node (lean/TraverseRule.lean instantiates f with the callback that does
+        # nothing and returns None), so the invariant must survive ENT growing by an enabled node in an otherwise unchanged state.
+        # A J that does not read ENT gives the very hypothesis back (discharged at once); a J that does is checked here.
+        def silent_enter_step():
+            ENT = z3.Const(fresh_name("ENT"), z3.ArraySort(I, B))
+            LEFT = z3.Const(fresh_name("LEFT"), z3.ArraySort(I, B))
+            xz = fresh("int", "node").z
+            eng.assume(z3.ForAll([c], z3.And(z3.Implies(sel(LEFT, c), sel(ENT, c)), z3.Implies(sel(ENT, c), Sub(c)),
+                                             z3.Implies(z3.And(sel(ENT, c), c != rz), sel(ENT, sel(P, c))))))
+            eng.assume(z3.And(Sub(xz), z3.Not(sel(ENT, xz)), z3.Not(sel(LEFT, xz)), R(xz)))
+            eng.assume(z3.Implies(xz != rz, z3.And(sel(ENT, sel(P, xz)), z3.Not(sel(LEFT, sel(P, xz))))))
+            assume_J(ENT, LEFT)
+            prove_J("enter/invariant-preserved-where-no-enter-callback-is-given", z3.Store(ENT, xz, z3.BoolVal(True)), LEFT)
+
+        if j_reads(0):
+            phase(silent_enter_step)
 
     # ---- leave step
     if leave is not None:
@@ -384,6 +517,7 @@ def apply(eng, rule: Rule, fr, topology, enter, leave, root):
                 for part in ([f for _, f in ql] if isinstance(ql, (list, tuple)) else [ql]):  # one hypothesis per conjunct
                     eng.assume(z3.ForAll([k], z3.Implies(z3.And(0 <= k, k < nkids(xz)), _zb(part))))
             pending = stability_before(ENT, LEFT)
+            watch = frame_before()
             ret = eng.call(leave, [xs, args], {})
             if owned_check:
                 eng.prove(f"{lab}/leave/returned-value-owns-its-mutable-parts", _zb(_owned(ret, mark)), "frame")
@@ -391,12 +525,29 @@ def apply(eng, rule: Rule, fr, topology, enter, leave, root):
             if rule.ghost_leave is not None:
                 ctx.ret, ctx.args = ret, args
                 rule.ghost_leave(eng, vars_now(), xz, ctx)
+            frame_after("leave", watch)
             LEFT2 = z3.Store(LEFT, xz, z3.BoolVal(True))
             stability_after("leave", pending)
             prove_J("leave/invariant-preserved", ENT, LEFT2)
             _prove_parts(eng, f"{lab}/leave/returned-value-as-specified", rule.Ql(eng, vars_now(), xz, ret, ctx))
 
         phase(leave_step)
+    else:
+        # No leave callback: every node is still LEFT (after its children); see the remark at the enter step.
+        def silent_leave_step():
+            ENT = z3.Const(fresh_name("ENT"), z3.ArraySort(I, B))
+            LEFT = z3.Const(fresh_name("LEFT"), z3.ArraySort(I, B))
+            xz = fresh("int", "node").z
+            eng.assume(z3.ForAll([c], z3.And(z3.Implies(sel(LEFT, c), sel(ENT, c)), z3.Implies(sel(ENT, c), Sub(c)),
+                                             z3.Implies(z3.And(sel(ENT, c), c != rz), sel(ENT, sel(P, c))))))
+            eng.assume(z3.And(Sub(xz), sel(ENT, xz), z3.Not(sel(LEFT, xz)), R(xz)))
+            eng.assume(z3.ForAll([c], z3.Implies(z3.And(R(c), sel(P, c) == xz), z3.And(sel(ENT, c), sel(LEFT, c)))))
+            eng.assume(z3.Implies(xz != rz, z3.And(sel(ENT, sel(P, xz)), z3.Not(sel(LEFT, sel(P, xz))))))
+            assume_J(ENT, LEFT)
+            prove_J("leave/invariant-preserved-where-no-leave-callback-is-given", ENT, z3.Store(LEFT, xz, z3.BoolVal(True)))
+
+        if j_reads(1):
+            phase(silent_leave_step)
 
     # ---- conclusion
     havoc()
